@@ -247,6 +247,8 @@ def from_shapes():
         ("derived_in_join", lambda n: ((ir.FromGroup(A, (ir.Join("JOIN", ir.Derived(_sub_nested(8) if n else _sub(8), "d2", False), on("ta", "d2")),)),), "ta", ())),
         ("cte_ref", lambda n: ((ir.FromGroup(ir.CteRef("q1")),), "q1", (("q1", _sub_nested(9) if n else _sub(9)),))),
         ("cte_ref_aliased", lambda n: ((ir.FromGroup(ir.CteRef("q1", "z", True)),), "z", (("q1", _sub(9)),))),
+        ("cte_ref_other_case", lambda n: ((ir.FromGroup(ir.CteRef("Q1")),), "Q1", (("q1", _sub(9)),))),
+        ("cte_def_other_case", lambda n: ((ir.FromGroup(ir.CteRef("q1", "z", False)),), "z", (("Q1", _sub(9)),))),
         ("chained_ctes", lambda n: ((ir.FromGroup(ir.CteRef("q2")),), "q2",
                                     (("q1", _sub(9)), ("q2", ir.Select((ir.Item(ir.Col("q1", "c1")),), (ir.FromGroup(ir.CteRef("q1")), ir.FromGroup(ir.T(None, "tq"))))),))),
         ("join_then_comma", lambda n: ((ir.FromGroup(A, (ir.Join("JOIN", B, on("ta", "tb")),)), ir.FromGroup(C)), "ta", ())),
@@ -360,8 +362,15 @@ def _skeleton_worker(payload):
             res.budget_exhausted = True
             break
         if ctx.quick:
-            # ansi always; plus 2 dialects chosen by a seeded rotation so that repeated runs cover them all
+            # ansi always; plus 2 dialects chosen by a seeded rotation so that repeated runs cover them all; statement styles that
+            # only some dialects have are always tried under one of those
             pick = ["ansi", dl[(idx + ctx.seed) % len(dl)], dl[(idx * 7 + 3 + ctx.seed) % len(dl)]]
+            if any(f in ("kind:insert_overwrite", "kind:insert_overwrite_table", "kind:insert_into_table") for f in feats):
+                pick.append(["sparksql", "hive", "databricks"][(idx + ctx.seed) % 3])
+            if any(f in ("kind:create_clone", "kind:create_or_replace_table") for f in feats):
+                pick.append(["snowflake", "bigquery"][(idx + ctx.seed) % 2])
+            if any(f == "kind:select_into" for f in feats):
+                pick.append(["postgres", "tsql"][(idx + ctx.seed) % 2])
         else:
             pick = dl
         for dialect in dict.fromkeys(pick):
